@@ -3,6 +3,7 @@
 -/
 import PtaModel
 import PtaSpec
+import Bridge.Abs
 import Driver.Proto
 namespace Driver
 open Pta
@@ -116,22 +117,6 @@ def specAnswer (a : Args) : String :=
 
 /-! ### specification automaton for call histories -/
 
-def toRCall : RuleOp → PtaSpec.RCall
-  | .modulesThat => .modulesThat
-  | .areNamed ns => .naming (!ns.isEmpty)
-  | .areSubModulesOf ns => .naming (!ns.isEmpty)
-  | .haveNameMatching _ => .naming true
-  | .haveNameContaining ps => .naming (!ps.isEmpty)
-  | .should => .should
-  | .shouldOnly => .shouldOnly
-  | .shouldNot => .shouldNot
-  | .importThat => .importType false
-  | .beImportedByThat => .importType false
-  | .importExcept => .importType true
-  | .beImportedByExcept => .importType true
-  | .importAnything => .anything
-  | .beImportedByAnything => .anything
-
 def renderClass : PtaSpec.RClass → String
   | .errorAtCall i => s!"errorAt{i}"
   | .incomplete => "incomplete"
@@ -197,12 +182,6 @@ def renderFilter (f : Filter) : String :=
 
 def renderLArch (a : LArch) : String :=
   joinStr ";" (a.map fun l => enc l.1 ++ "~" ++ joinStr "," (l.2.map renderFilter))
-
-def toLCall : LArchOp → PtaSpec.LCall
-  | .withLayer => .withLayer
-  | .layer n => .layer n
-  | .containingModules ms => .modules ms
-  | .matching r => .regex r
 
 def renderIds (ls : List (Str × List Str)) : String :=
   joinStr ";" (ls.map fun l => enc l.1 ++ "~" ++ joinStr "," (l.2.map enc))
@@ -276,22 +255,6 @@ def layerSpecAnswer (a : Args) : String :=
     let ls := parseLayers (a.get "lres")
     let dom := s!"{if arch.wf then "w" else "-"}{if PtaSpec.layerDomain arch ls r then "d" else "-"}"
     s!"S={if PtaSpec.layerVerdict arch ls r then "PASS" else "FAIL"} D={dom}"
-
-def toLRCall (arch : LArch) : LayerRuleOp → PtaSpec.LRCall
-  | .basedOn _ => .basedOn
-  | .layersThat => .layersThat
-  | .areNamed ls isList =>
-    .named ((ls.flatMap fun l => match arch.get l with | .ok fs => fs | .error _ => []).length) isList
-      (ls.all arch.hasLayer)
-  | .should => .should
-  | .shouldOnly => .shouldOnly
-  | .shouldNot => .shouldNot
-  | .access => .accessType false
-  | .beAccessedBy => .accessType false
-  | .accessExcept => .accessType true
-  | .beAccessedByExcept => .accessType true
-  | .accessAny => .anyLayer
-  | .beAccessedByAny => .anyLayer
 
 def renderLRClass : PtaSpec.LRClass → String
   | .rejectedAt i => s!"rejectedAt{i}"
